@@ -22,10 +22,10 @@ func zzU32(b []byte, o int) uint64 {
 func zzU64(b []byte, o int) uint64 { return zzU32(b, o) | zzU32(b, o+4)<<32 }
 
 type zzMeta struct {
-	ok                                bool
-	pageSize, flags                   uint64
-	root, seq, freelist, hwm, txid    uint64
-	checksum                          uint64
+	ok                             bool
+	pageSize, flags                uint64
+	root, seq, freelist, hwm, txid uint64
+	checksum                       uint64
 }
 
 type zzKV struct {
@@ -37,20 +37,20 @@ type zzKV struct {
 }
 
 type zzImage struct {
-	b        []byte
-	ps       int
-	meta     [2]zzMeta
-	cur      int // index of the chosen meta, -1 if none valid
-	m        zzMeta
-	refs     map[uint64]int // page id -> number of references from the tree (incl. overflow pages)
-	flTotal  int            // pages occupied by the freelist page
-	free     []uint64       // ids listed in the freelist page
-	hasFL    bool
-	kvs      []zzKV
-	errs     []string
-	pagesOK  bool
-	collect  bool // true: key-order conditions are collected into ordered instead of asserted
-	ordered  bool
+	b       []byte
+	ps      int
+	meta    [2]zzMeta
+	cur     int // index of the chosen meta, -1 if none valid
+	m       zzMeta
+	refs    map[uint64]int // page id -> number of references from the tree (incl. overflow pages)
+	flTotal int            // pages occupied by the freelist page
+	free    []uint64       // ids listed in the freelist page
+	hasFL   bool
+	kvs     []zzKV
+	errs    []string
+	pagesOK bool
+	collect bool // true: key-order conditions are collected into ordered instead of asserted
+	ordered bool
 }
 
 // order records a key-order condition (possibly symbolic).
@@ -287,7 +287,9 @@ func (im *zzImage) walkLeaf(p []byte, count, depth int, lo, hi []byte) {
 
 // zzAccount asserts the page accounting of C07 on a decoded image. extraFree: ids to treat as
 // listed free when the image has no freelist page (no-sync mode: pass the in-memory free+pending).
-func zzAccount(im *zzImage, id string, extraFree []uint64) { zzAccountKnown(im, id, extraFree, false, "") }
+func zzAccount(im *zzImage, id string, extraFree []uint64) {
+	zzAccountKnown(im, id, extraFree, false, "")
+}
 
 // zzAccountKnown: as zzAccount; the "no page leaked" clause is asserted unless the known-finding
 // trigger holds (only honoured when key is listed as known in known_findings.txt).
@@ -405,7 +407,6 @@ func zzFreeAndPending(db *DB) []uint64 {
 	}
 	return out
 }
-
 
 // zzConsistent: the independent decoder's verdict on an image as one boolean: structure decodable,
 // every page below the high-water mark exactly one of {tree page (once), freelist page, listed free
